@@ -16,6 +16,10 @@ SEARCH_MAX = 2500
 THEOREMS = [
     ('c05_reset_is_new',
      'forall (s : dsu) (n : nat), reset s n = Ok (new n)'),
+    ('c05_reset_refused',
+     'forall (s : dsu) (m : N), (9223372036854775807 < m * 8)%N -> step s (Reset m) = Panic /\\ panic_state s (Reset m) = s'),
+    ('c05_reset_granted',
+     'forall (s : dsu) (m : N), (m * 8 <= 9223372036854775807)%N -> step s (Reset m) = Ok (new (N.to_nat m), RU)'),
     ('c05_inv_preserved',
      "(forall n, Inv n [] (new n)) /\\ (forall n es s o s' r, Inv n es s -> step s o = Ok (s', r) -> Inv (ghost_n n o) (ghost_es es o) s')"),
     ('c05_reach_inv',
@@ -28,6 +32,8 @@ THEOREMS = [
      'forall n es s o, reach n es s -> step s o <> Fuel'),
     ('c05_panic_iff_out_of_range',
      'forall n es s o, reach n es s -> (step s o = Panic <-> in_range n o = false)'),
+    ('c05_panic_state_reachable',
+     'forall n es s o, reach n es s -> reach n es (panic_state s o)'),
     ('c05_partition',
      "forall n es s u v, reach n es s -> u < n -> v < n -> exists s' b, step s (Check u v) = Ok (s', RB b) /\\ (b = true <-> conn es u v)"),
     ('c05_un_true_iff_joined',
@@ -56,8 +62,15 @@ RULE = ("histories of 0-160 calls on 0-65 elements over up to 7 live copies: un 
         "len+0..7, 2*len, 2^k and 2^k+good for k = 8,16,31,32,63, 2^32-1, 2^63-1, 2^64-2, 2^64-1) on fresh values, "
         "after a shrinking reset, on clones and on uncompressed deep forests: the call must panic, the history goes on "
         "and the arrays it left behind are compared (un / check have compressed the path of an in-range first "
-        "argument); executor cross-checks: Debug renderings after reset = those of new(n), of a clone / clone_from "
-        "target = those of the source; non-trivial = at least 3 joining unions on a copy and a lookup on it afterwards")
+        "argument); reset(n) whose buffer request is refused ('capacity overflow': n = 2^60, 2^60+1, 2^60+len, 2^61+5, "
+        "2^62, 2^63-1, 2^63, 2^63+len, 2^64-1-len, 2^64-2, 2^64-1; never a value between 2^32 and 2^60, which would "
+        "really allocate) on copies with a union history, after a shrinking reset, on clones of deep forests, on "
+        "uncompressed forests, on clone_from results, on empty / one-element / union-free values and after adversarial "
+        "builds: the call must panic and leave both arrays as they were, then the size of every element, lookups, "
+        "further unions, refused resets in a row, clones, a granted reset + second build; clone_from over a value "
+        "that went through a refused reset (= a clone); executor cross-checks: Debug renderings after reset = those "
+        "of new(n), of a clone / clone_from target = those of the source, unchanged by a reset / par / size that "
+        "panicked; non-trivial = at least 3 joining unions on a copy and a lookup on it afterwards")
 TRUSTED = ["executor harness/crates/c05 (drives rlib_dsu::DSU, prints return values and the arrays read through verif_raw; "
            "catches the unwind of a panicking call and goes on; compares Debug renderings)",
            "checks/c05.py (history generator, Coq term printer; element indices above every element count of the history "
@@ -66,18 +79,25 @@ TRUSTED = ["executor harness/crates/c05 (drives rlib_dsu::DSU, prints return val
 ASSUMPTIONS = ["Vec<usize> modelled as list nat, usize arithmetic as nat (sizes are bounded by the element count, no overflow)",
                "the value a panicking call leaves behind is modelled by panic_state (Model.v): un / check have completed "
                "the find of their first argument when it is in range, every other panicking call has written nothing - "
-               "the only panic reachable from a reachable state is the bounds check of the first access of a find "
-               "(c05_panic_iff_out_of_range)",
-               "reset(n) with n so large that the allocation fails is outside the model",
+               "the only panics reachable from a reachable state are the bounds check of the first access of a find "
+               "and the refused buffer request of a reset (c05_panic_iff_out_of_range, c05_reset_refused); what is left "
+               "behind is a reachable value of the same history (c05_panic_state_reachable)",
+               "reset(n) is refused ('capacity overflow' panic of the first resize, before any write) exactly when n * 8 "
+               "exceeds isize::MAX = 2^63-1 (64-bit target, 8-byte usize; the amortised doubling of the old capacity "
+               "never exceeds n there); a reset with n < 2^60 that the allocator cannot serve aborts the process and is "
+               "outside the model (never generated: the executor refuses reset arguments in 2^32 .. 2^60)",
                "the recursion of par is modelled with fuel = number of elements + 1; the theorems exclude running out of fuel "
                "(c05_no_fuel_exhaustion, c05_history_no_fuel) and bound the recursion depth by log2(class size) + 1 frames "
                "(c05_stack_depth, c05_depth_log)",
                "the stack size of the real process is not modelled: the claim is the frame count (the implementation-only "
                "search runs its deep lookups on a thread with a 256 KiB stack)"]
 
-OPS = {"u": 2, "k": 2, "p": 1, "s": 1, "r": 1, "c": 0, "f": 2}
+OPS = {"u": 2, "k": 2, "p": 1, "s": 1, "r": 1, "c": 0, "f": 2, "g": 2}
 ELEM_OPS = ("u", "k", "p", "s")          # ops whose arguments are element indices
 U64 = 1 << 64
+REFUSED = 1 << 60                        # reset(n), n >= 2^60: n * 8 bytes > isize::MAX, 'capacity overflow' before any
+                                         # allocation.  NEVER generate a reset between 2^32 and 2^60: it would really
+                                         # allocate (the executor refuses such a line)
 
 
 # ----------------------------------------------------------------------------- executor / Coq printing
@@ -133,12 +153,13 @@ def index_cap(c):
     """Element indices are passed to the executor as they are (up to 2^64-1) but written into the Coq term as
     min(index, cap) with cap above every element count that occurs in the history: the model converts indices to
     unary numbers, and an index at or above the element count is out of range whatever its value."""
-    return max([4095, c["n"]] + [o[2] for o in c["ops"] if o[0] == "r"] + [o[3] - 1 for o in c["ops"] if o[0] == "f"])
+    return max([4095, c["n"]] + [o[2] for o in c["ops"] if o[0] == "r" and o[2] < REFUSED]
+               + [o[3] - 1 for o in c["ops"] if o[0] == "f"])
 
 
 def op_term(o, cap):
     k = o[0]
-    if k == "f":       # a copy made through clone_from must be indistinguishable from a clone of the source
+    if k in ("f", "g"):  # a copy made through clone_from must be indistinguishable from a clone of the source
         return "NClone %s" % num(o[1])
     name = {"u": "NUn", "k": "NCheck", "p": "NPar", "s": "NSize", "r": "NReset", "c": "NClone"}[k]
     args = [min(x, cap) for x in o[2:]] if k in ELEM_OPS else o[2:]
@@ -176,7 +197,8 @@ def nontrivial(c, obs):
         if o[0] == "u" and tok == "T":
             joins[cp] = joins.get(cp, 0) + 1
         elif o[0] == "r":
-            joins[cp] = 0
+            if tok != "P":                  # a refused reset leaves the unions in place
+                joins[cp] = 0
         elif joins.get(cp, 0) >= 3 and o[0] in ("k", "p", "s") and tok != "P":
             after = True
     return after
@@ -191,8 +213,10 @@ def classify(c, obs):
         tags.append("reset")
     if "c" in kinds:
         tags.append("clone")
-    if "f" in kinds:
+    if "f" in kinds or "g" in kinds:
         tags.append("clone_from")
+    if "g" in kinds or any(o[0] == "r" and o[2] >= REFUSED for o in c["ops"]):
+        tags.append("reset-refused")
     toks = obs.split()
     if "P" in toks:
         tags.append("panic" if toks[toks.index("P") + 1:toks.index("P") + 2] == ["E"] else "panic+continued")
@@ -273,8 +297,10 @@ class Hist:
         self._finds(c, [v])
 
     def reset(self, c, n):
+        assert n < (1 << 32) or REFUSED <= n < U64, n
         self.ops.append(["r", c, n])
-        self.cp[c] = PD(n)
+        if n < REFUSED:                      # a refused reset panics and leaves the value as it is
+            self.cp[c] = PD(n)
 
     def clone(self, c):
         self.ops.append(["c", c])
@@ -283,6 +309,13 @@ class Hist:
 
     def clone_from(self, c, dst, m):
         self.ops.append(["f", c, dst, m])
+        self.cp.append(self.cp[c].copy())
+        return len(self.cp) - 1
+
+    def clone_from_refused(self, c, dst, n):
+        """a copy of c made by clone_from over a clone of dst that went through a refused reset(n)"""
+        assert REFUSED <= n < U64, n
+        self.ops.append(["g", c, dst, n])
         self.cp.append(self.cp[c].copy())
         return len(self.cp) - 1
 
@@ -307,6 +340,14 @@ def bad_values(rng, m, good):
         vals += [1 << k, (1 << k) + good]
     vals += [(1 << 32) - 1, (1 << 63) - 1, U64 - 2, U64 - 1, U64 - 1 - good]
     return [v for v in dict.fromkeys(vals) if m <= v < U64]
+
+
+def refused_values(m, good=0):
+    """element counts a reset cannot get a buffer for (n * 8 > isize::MAX): the threshold, values that alias a small
+    count / the current length after a narrowing cast or a wrapped subtraction, the extremes"""
+    vals = [REFUSED, REFUSED + 1, REFUSED + m, (1 << 61) + 5, 1 << 62, (1 << 63) - 1, 1 << 63, (1 << 63) + m,
+            (1 << 63) + good, U64 - 1 - m, U64 - 2, U64 - 1]
+    return [v for v in dict.fromkeys(vals) if REFUSED <= v < U64]
 
 
 def panic_call(rng, h, c, kind, shape, bad, good):
@@ -388,7 +429,13 @@ def build_chain(rng, h, c, style):
             h.un(c, 0, n - 1)
 
 
-TAILS = 7
+TAILS = 8
+
+
+def sizes_of_all(h, c):
+    """size of every element (roots and non-roots: stale root sizes show at elements that are roots again)"""
+    for v in range(h.len(c)):
+        h.size(c, v)
 
 
 def tail(rng, h, mode, rebuild):
@@ -424,6 +471,14 @@ def tail(rng, h, mode, rebuild):
             bad = rng.choice(bad_values(rng, n, v))
             panic_call(rng, h, 0, rng.choice(["u", "k"]), rng.choice([2, 2, 3, 0, 1]), bad, v)
             lookups(rng, h, 0, rng.range(1, 3))
+    elif mode == 7:                                 # resets that cannot get their buffer: nothing may move
+        for _ in range(rng.range(1, 3)):
+            h.reset(0, rng.choice(refused_values(n, h.deepest(rng, 0) if n else 0)))
+            lookups(rng, h, 0, rng.range(1, 3))
+        sizes_of_all(h, 0)
+        if rng.chance(1, 2):
+            c = h.clone_from_refused(0, 0, rng.choice(refused_values(n)))
+            lookups(rng, h, c, 2)
     else:                                           # many copies, each looked at
         cs = [0]
         for _ in range(rng.range(4, 7)):
@@ -457,6 +512,13 @@ def gen_random(rng, n, nops, panics=0, maxn=24, maxcopies=4):
         k = rng.below(100)
         if panics and rng.below(1000) < panics:
             good = rng.below(m) if m else 0
+            if rng.chance(1, 5):                    # a reset that cannot get its buffer (possibly through clone_from)
+                big = rng.choice(refused_values(m, good))
+                if rng.chance(1, 4) and len(h.cp) < maxcopies:
+                    h.clone_from_refused(c, rng.below(len(h.cp)), big)
+                else:
+                    h.reset(c, big)
+                continue
             bad = rng.choice([m + rng.below(3), m + rng.below(3), rng.choice(bad_values(rng, m, good))])
             panic_call(rng, h, c, rng.choice(ELEM_OPS), rng.below(4), bad, good)
             continue
@@ -529,6 +591,72 @@ def gen_panic_shapes(rng, ctx, kind, nvals=None):
     return h.case()
 
 
+REFUSED_CTX = 8
+
+
+def gen_refused_resets(rng, ctx, nvals=None):
+    """reset(n) with n >= 2^60 (the buffer request is refused: 'capacity overflow') on a copy prepared in one of eight
+    ways; the call must panic and leave the value alone, and the history goes on: the size of every element, lookups,
+    more unions (union by size decides on the sizes that must have survived), refused resets in a row, clones, at the
+    end a granted reset and a second build / a clone_from over a value with a refused reset / the other copies"""
+    h = Hist({0: 9, 1: 12, 2: 8, 3: 8, 4: 0, 5: 1, 6: 7, 7: 6}[ctx], "reset-refused")
+    c = 0
+    if ctx == 0:            # a few random unions
+        for _ in range(6):
+            h.un(0, rng.below(9), rng.below(9))
+    elif ctx == 1:          # after a shrinking reset: the buffers are longer than the value
+        for _ in range(8):
+            h.un(0, rng.below(12), rng.below(12))
+        h.reset(0, 5)
+        h.un(0, 0, 1)
+        h.un(0, 2, 3)
+        h.un(0, 1, 3)
+    elif ctx == 2:          # a clone of a deep forest; the original is looked at afterwards
+        build_binomial(rng, h, 0, False, False)
+        c = h.clone(0)
+    elif ctx == 3:          # a deep forest, never compressed
+        build_binomial(rng, h, 0, True, False)
+    elif ctx == 7:          # a copy made by clone_from, classes of 4 and 2
+        for a, b in [(0, 1), (2, 3), (0, 2), (4, 5)]:
+            h.un(0, a, b)
+        c = h.clone_from(0, 0, rng.choice([0, 3, 9]))
+    # ctx 4, 5, 6: empty, one element, seven elements without unions
+    m = h.len(c)
+    vals = refused_values(m, m - 1 if m else 0)
+    if nvals is not None and len(vals) > nvals:
+        rng.shuffle(vals)
+        vals = vals[:nvals]
+    for big in vals:
+        h.reset(c, big)
+        k = rng.below(5)
+        if k == 0:
+            sizes_of_all(h, c)
+        elif k == 1:
+            lookups(rng, h, c, 2, deep=rng.chance(1, 2))
+        elif k == 2 and m >= 2:
+            h.un(c, rng.below(m), rng.below(m))
+            h.size(c, rng.below(m))
+        elif k == 3 and len(h.cp) < 6:
+            d = h.clone(c)
+            lookups(rng, h, d, 1)
+    sizes_of_all(h, c)
+    k = rng.below(3)
+    if k == 0:
+        h.reset(c, rng.choice([m, m // 2, m + 2]))
+        build_chain(rng, h, c, rng.below(4))
+        lookups(rng, h, c, 2)
+        h.reset(c, rng.choice(vals))
+        sizes_of_all(h, c)
+    elif k == 1:
+        d = h.clone_from_refused(c, rng.below(len(h.cp)), rng.choice(vals))
+        lookups(rng, h, d, 2)
+        lookups(rng, h, c, 1)
+    else:
+        for d in range(len(h.cp)):
+            lookups(rng, h, d, 1)
+    return h.case()
+
+
 def gen_many_resets(rng, nres):
     """one copy reset again and again (anything that counts resets or calls in a narrow integer gets past 255)"""
     h = Hist(3, "many-resets")
@@ -574,6 +702,21 @@ def fixed_cases(rng):
     for ctx in range(6):
         for kind in ELEM_OPS:
             cases.append(gen_panic_shapes(rng, ctx, kind))
+    # resets that cannot get their buffer (n * 8 > isize::MAX): panic, nothing written, the history goes on
+    for n, ops in [
+        (3, [["r", 0, REFUSED]]), (0, [["r", 0, M], ["r", 0, 2], ["u", 0, 0, 1], ["r", 0, M - 1], ["s", 0, 0]]),
+        (2, [["u", 0, 0, 1], ["r", 0, REFUSED], ["s", 0, 0], ["s", 0, 1]]),
+        (6, [["u", 0, 0, 1], ["u", 0, 2, 3], ["u", 0, 0, 2], ["u", 0, 4, 5], ["r", 0, M], ["s", 0, 1], ["s", 0, 3],
+             ["k", 0, 0, 1], ["u", 0, 0, 4], ["s", 0, 0], ["s", 0, 4]]),
+        (4, [["u", 0, 0, 1], ["u", 0, 2, 3], ["c", 0], ["r", 1, 1 << 63], ["u", 1, 1, 3], ["s", 1, 0], ["s", 0, 0],
+             ["r", 0, (1 << 61) + 5], ["u", 0, 0, 2], ["s", 0, 3]]),
+        (3, [["u", 0, 0, 1], ["g", 0, 0, M], ["s", 1, 0], ["g", 1, 0, REFUSED], ["u", 2, 2, 0], ["s", 2, 1]]),
+        (5, [["u", 0, 0, 1], ["u", 0, 2, 3], ["u", 0, 1, 3], ["r", 0, 2], ["r", 0, REFUSED + 2], ["p", 0, 2], ["u", 0, 0, 1],
+             ["r", 0, M], ["s", 0, 0]]),
+    ]:
+        cases.append({"n": n, "fam": "reset-refused", "ops": ops})
+    for ctx in range(REFUSED_CTX):
+        cases.append(gen_refused_resets(rng, ctx))
     # clone_from over values of another length and history
     cases.append({"n": 5, "fam": "clone-from", "ops": [
         ["u", 0, 0, 1], ["u", 0, 2, 3], ["u", 0, 1, 3], ["c", 0], ["r", 1, 9], ["u", 1, 7, 8], ["f", 0, 1, 0], ["f", 1, 0, 0],
@@ -620,6 +763,8 @@ def generate(rng, tier):
             cases.append(gen_chain(rng, rng.range(25, top) if big else rng.range(2, 24), rng.below(4)))
         elif k == 4:
             cases.append(gen_panic_shapes(rng, rng.below(6), rng.choice(ELEM_OPS), nvals=rng.range(2, 8)))
+        elif k == 5:
+            cases.append(gen_refused_resets(rng, rng.below(REFUSED_CTX), nvals=rng.range(1, 6)))
         else:
             n = rng.choice([rng.range(0, 6), rng.range(1, 12), rng.range(1, 24), rng.range(8, 24)])
             nops = rng.choice([rng.range(0, 10), rng.range(5, 40), rng.range(20, 70)])
@@ -635,9 +780,9 @@ def well_formed(c):
     """every op refers to an existing copy (clones are counted); out-of-range element indices are allowed"""
     copies = 1
     for o in c["ops"]:
-        if o[1] >= copies or (o[0] == "f" and o[2] >= copies):
+        if o[1] >= copies or (o[0] in ("f", "g") and o[2] >= copies):
             return False
-        if o[0] in ("c", "f"):
+        if o[0] in ("c", "f", "g"):
             copies += 1
     return True
 
@@ -667,8 +812,17 @@ def shrink(c):
             out.append(dict(c, ops=ops[:i] + [["c", o[1]]] + ops[i + 1:]))
             if o[3]:
                 out.append(dict(c, ops=ops[:i] + [["f", o[1], o[2], 0]] + ops[i + 1:]))
+        if o[0] == "g":     # the same without the refused reset; over a clone of the source itself; the plain threshold
+            out.append(dict(c, ops=ops[:i] + [["c", o[1]]] + ops[i + 1:]))
+            if o[2] != o[1]:
+                out.append(dict(c, ops=ops[:i] + [["g", o[1], o[1], o[3]]] + ops[i + 1:]))
+            if o[3] != REFUSED:
+                out.append(dict(c, ops=ops[:i] + [["g", o[1], o[2], REFUSED]] + ops[i + 1:]))
+        if o[0] == "r" and o[2] > REFUSED:
+            out.append(dict(c, ops=ops[:i] + [["r", o[1], REFUSED]] + ops[i + 1:]))
     # fewer elements (only when no index is out of range on purpose)
-    mx = max([x for o in ops if o[0] in ELEM_OPS for x in o[2:]] + [o[2] - 1 for o in ops if o[0] == "r"] + [0])
+    mx = max([x for o in ops if o[0] in ELEM_OPS for x in o[2:]]
+             + [o[2] - 1 for o in ops if o[0] == "r" and o[2] < REFUSED] + [0])
     if c["n"] > mx + 1:
         out.append(dict(c, n=mx + 1))
     return out
@@ -721,8 +875,9 @@ def extra(ctx, known):
 
 MANIFEST = {
     "text": "Coq theorems (no axioms) about an executable Gallina model of rlib_dsu::DSU (parent and size vectors with checked "
-            "indexing, recursive find with path compression exactly as coded, union by size, reset as resize + two loops, "
-            "clone), for every finite history of un / par / check / size / reset (growing or shrinking) on every live "
+            "indexing, recursive find with path compression exactly as coded, union by size, reset as resize + two loops "
+            "preceded by the buffer request that panics with nothing written when n * 8 > isize::MAX (c05_reset_refused, "
+            "c05_reset_granted), clone), for every finite history of un / par / check / size / reset (growing or shrinking) on every live "
             "copy: an invariant with a ghost rank and representative function is preserved by every call "
             "(c05_inv_preserved); the find never runs out of fuel and a call panics exactly on an out-of-range index; "
             "check u v <=> (u,v) in the equivalence closure of the union requests since the last reset (c05_partition); "
@@ -731,20 +886,25 @@ MANIFEST = {
             "log2(class size) and the recursion needs at most log2(class size)+1 frames (c05_depth_log, c05_stack_depth). "
             "The model is tied to the code on every run: the executor replays generated histories (up to 65 elements and 7 "
             "copies, resets, clones, clone_from, adversarial orders followed by lookups of the deepest elements, "
-            "out-of-range calls of every argument shape up to 2^64-1 after which the history goes on with the value the "
-            "panicking call left behind) on the crate, debug and release build, and Coq proves case by case that return "
+            "out-of-range calls of every argument shape up to 2^64-1 and resets of 2^60 .. 2^64-1 elements, which must panic "
+            "('capacity overflow') with both arrays untouched, after which the history goes on with the value the "
+            "panicking call left behind - a value of the same history, c05_panic_state_reachable) on the crate, debug and release build, and Coq proves case by case that return "
             "values, panics and the hooked (p, sz) arrays equal the model's (batch_model) and satisfy a model-independent "
             "specification (batch_spec: naive partition replay, forest shape, depth <= log2 class size, a call panics "
-            "iff an index is out of range and leaves a forest of the same partition); "
+            "iff an index is out of range or a reset asks for 2^60 elements or more, and leaves a forest of the same "
+            "partition); "
             "c05_model_check_implies_spec_check proves that the first implies the second. The executor also compares the "
-            "Debug renderings after reset with new(n) and of clone / clone_from results with their source (hidden state). "
+            "Debug renderings after reset with new(n), of clone / clone_from results with their source and before / after a "
+            "reset, par or size that panicked (hidden state). "
             "An implementation-only search (both builds) drives binomial-tree, chain and random union orders up to 10^6 "
-            "elements (sizes around 2^16 and 2^17 in the quick tier), reset + second build, clones, 70000-300000 resets, and "
+            "elements (sizes around 2^16 and 2^17 in the quick tier), reset + second build, clones, 70000-300000 resets, "
+            "refused resets in between (arrays and rendering unchanged), and "
             "checks depth, root sizes, return values of un / par / check / size against a naive labelling, and that "
             "lookups of the deepest elements (on a 256 KiB stack) return the root and compress the whole path.",
     "level_note": "Trusted: Coq kernel + vm_compute; the Rust executor, the verif_raw hook and the Python case printer (which "
                   "clamps out-of-range indices to 4095 in the Coq term); Vec as list, usize as nat (sizes never exceed the "
-                  "element count); the value left by a panicking call is modelled as 'first find done' (panic_state); "
+                  "element count); the value left by a panicking call is modelled as 'first find done' / 'nothing written' "
+                  "(panic_state); the refusal threshold of reset is that of a 64-bit target; "
                   "theorems are about the model, the correspondence is sampled (histories on <= 65 elements); the "
                   "10^6-element runs are an implementation-only search, not a proof; process stack size is not modelled "
                   "(the claim is the frame count).",
